@@ -503,10 +503,14 @@ def cexExternal (t : ExternalTask) (ps : List Problem) (seed tries : Nat) : Sexp
       let refuted := ps.any (refutedB J)
       let ug := ugs.all fun a => evalHtF J J a.formula false []
       let JR := renamedView clash J
-      let sr ← stableB PR ins JR
+      let emptyOut := fun (P : Program) (I : FinInterp) =>
+        (missingOutputs t P).all fun q => (tuples (I.window .general) q.arity).all fun ds => !I.holds q.symbol ds
+      let sr0 ← stableB PR ins JR
+      let sr := sr0 && emptyOut t.program JR
       let pr ← privSupportedB PR t.progPrivate JR
       if isProg then do
-        let sl ← stableB PL ins J
+        let sl0 ← stableB PL ins J
+        let sl := sl0 && emptyOut PL0 J
         let pl ← privSupportedB PL t.specPrivate J
         some (refuted, ug && ((fwd && sl && pr && !sr) || (bwd && sr && pl && !sl)))
       else
